@@ -101,6 +101,8 @@ def step(case):
     data = bytes.fromhex(case["data"]) if isinstance(case["data"], str) else case["data"]
     font = load_fully(TTFont(io.BytesIO(data)))
     try:
+        if case.get("via"):  # two calls on the same loaded font object, no save / reload in between
+            reorder_glyphs(font, list(case["via"]))
         reorder_glyphs(font, list(case["order"]))
         b = io.BytesIO()
         font.save(b)
@@ -138,7 +140,7 @@ def execute(case):
     _, ref, _, _ = load_facts(data)
     vs = []
     for order in case["path"]:
-        vs, data = step({"data": data, "order": order, "ref": ref})
+        vs, data = step({"data": data, "order": order, "ref": ref, "via": case.get("via")})
         if data is None or any(v["status"] == "violation" for v in vs):
             return vs
     return vs
@@ -215,6 +217,19 @@ def bfs(report, which, n_movable):
         out = vs[0].get("_data") if vs else None
         if out is not None and tuple(c["order"][len(fixed):]) in seen and seen[tuple(c["order"][len(fixed):])][0] != out:
             fps.add("path-dependent-bytes")
+    # two reorders in a row on one loaded font (no save / reload in between): via the reversed order to every order
+    cases2 = [{"data": data0, "via": fixed + list(reversed(start)), "order": fixed + list(perm), "ref": ref} for perm in itertools.permutations(start)]
+    results2 = pool.run_cases(_step_pool, cases2, timeout=300, seed=report.seed)
+    for c, vs in zip(cases2, results2):
+        transitions += 1
+        for v in vs:
+            if v["status"] == "harness-error":
+                raise HarnessError(v["detail"])
+            report.status[v["status"]] += 1
+            if v["status"] == "violation":
+                report.add_violation(v["clause"], {"kind": "path", "font": which, "path": [c["order"]], "via": c["via"]}, v["detail"],
+                                     sig=f"{which}:two-calls:{v['clause']}")
+    report.extra["two_call_permutations"] = report.extra.get("two_call_permutations", 0) + len(cases2)
     report.extra.setdefault("one_shot_permutations", 0)
     report.extra["one_shot_permutations"] += len(cases)
     report.states += len(seen)
@@ -260,6 +275,6 @@ def run(report, tier, only=None):
         "E5: breadth-first search over all orders of the movable glyphs (quick 5! = 120, thorough 6! = 720) of a font carrying one lookup of every "
         "GSUB/GPOS type+format and every glyph-keyed GDEF structure; each transition calls the real reorder_glyphs on the already reordered font, saves, "
         "reloads; in every state the name-keyed facts (cmap, hmtx, outlines, COLR, every lookup zipped coverage->record) must equal the initial ones and "
-        "every coverage in the binary must be sorted; the same on a real nanoemoji COLRv1 font with GSUB and on a second layout font in whose parallel arrays two glyphs carry equal entries; distinct = orders reached per font"
+        "every coverage in the binary must be sorted; from the initial font also two calls in a row on one loaded font object (via the reversed order to every order); the same on a real nanoemoji COLRv1 font with GSUB and on a second layout font in whose parallel arrays two glyphs carry equal entries; distinct = orders reached per font"
     )
     report.assumptions += ["fontTools compiles coverage tables in the order given (it does not sort them), so unsorted input shows up in the binary"]
